@@ -165,13 +165,13 @@ def interleaved(s, i, timing='timed'):
 def judge_two(s, ta, tb, n, timing, again):
     from ..contracts import ref_story_table, _child, feq
     ra, rb = s.load(ta), s.load(tb)
-    sa = ra.stories
-    sb = rb.stories
-    _ = [x.offset for x in sb]
-    sa2 = None
-    if again:
-        sa2 = rb.duration      # anything that lists B again
     try:
+        sa = ra.stories
+        sb = rb.stories
+        _ = [x.offset for x in sb]
+        sa2 = None
+        if again:
+            sa2 = rb.duration      # anything that lists B again
         got = [(x.id, x.offset, x.start_time, x.end_time, x.duration) for x in sa]
     except Exception as e:
         got = e
